@@ -131,6 +131,7 @@ let show_block = function
   | Para t -> "P " ^ hx (implode t)
   | Bullet t -> "B " ^ hx (implode t)
   | Rule -> "R"
+  | LF -> "L"
   | Table (h, rows) ->
     let b = Buffer.create 64 in
     Buffer.add_string b (Printf.sprintf "T %d" (List.length h));
@@ -140,6 +141,11 @@ let show_block = function
         Buffer.add_string b (Printf.sprintf " %d" (List.length r));
         List.iter (fun c -> Buffer.add_string b (" " ^ hx (implode c))) r) rows;
     Buffer.contents b
+
+(* a paragraph with line breaks is rendered as one line per text line *)
+let show_lines b = match b with
+  | Para t -> List.map (fun l -> "P " ^ hx l) (String.split_on_char '\n' (implode t))
+  | _ -> [show_block b]
 
 let readable line =
   String.concat " " (List.map (fun t -> if String.length t > 0 && t.[0] = 'x' && String.length t mod 2 = 1
@@ -179,6 +185,7 @@ let c_block_of_obs line = match toks line with
   | ["P"; t] -> "Para " ^ q (unhex t)
   | ["B"; t] -> "Bullet " ^ q (unhex t)
   | ["R"] -> "Rule"
+  | ["L"] -> "LF"
   | "T" :: nc_ :: rest ->
     let rec take k l acc = if k = 0 then (List.rev acc, l) else match l with x :: r -> take (k - 1) r (x :: acc) | [] -> failwith "T" in
     let hdr, rest = take (int_of_string nc_) rest [] in
@@ -417,12 +424,13 @@ let () =
        let rec obs () = match pop st with "endobs" -> [] | l -> l :: obs () in
        let observed = obs () in
        incr cases;
-       if !coq_budget > 0 && not obs_err && List.length observed < 400 then begin
+       if !coq_budget > 0 && not obs_err && List.length observed < 400
+          && not (List.exists (function Para t -> List.mem '\n' t | _ -> false) (blocks net)) then begin
          Buffer.add_string coq_buf (Printf.sprintf "Definition n_%s : net := %s.\nDefinition o_%s : list block := %s.\n" idx (c_net net) idx (lst c_block_of_obs observed));
          coq_checks := Printf.sprintf "check_md n_%s o_%s" idx idx :: !coq_checks
        end;
        let model = md net in
-       let model_lines = List.map show_block (blocks net) in
+       let model_lines = List.concat_map show_lines (blocks net) in
        let model_err = (match model with Ok _ -> false | Err -> true) in
        let report what =
          incr bad;
